@@ -28,6 +28,7 @@ import (
 	"verif/internal/gen"
 	"verif/internal/hooks"
 	"verif/internal/model"
+	"verif/internal/sched"
 	"verif/internal/simfs"
 )
 
@@ -124,6 +125,31 @@ func c20Sequence(c *evid.Ctx, seed int64, declared map[string]bool, allSites *re
 		return
 	}
 	defer func() { drv.CloseWAL(w) }()
+	// pending-rotation mode (a third of the sequences): the background rotation of a sealing
+	// append is held queued until the next writer call waits for it - or until the WAL is
+	// closed first, in which case that process never performs it and the next Open does
+	var gate *sched.RotGate
+	if seed%3 == 0 {
+		gate = sched.NewRotGate(w)
+		defer func() {
+			if gate != nil {
+				gate.Close()
+			}
+		}()
+		c.Count("pending_rotation_sequences", 1)
+	}
+	settle := func() {
+		if gate == nil {
+			hooks.WaitRotation(w, drv.Watchdog)
+			return
+		}
+		sw := w
+		gate.Settle(func() (int64, int64, int64) { return hooks.Rotations(sw) }, drv.Watchdog)
+		if gate.Holding() && rng.Intn(2) == 0 {
+			gate.Release()
+			hooks.WaitRotation(w, drv.Watchdog)
+		}
+	}
 	l := model.NewLog()
 	var t c20Totals
 	start := []uint64{1, 1, 100, 5000}[rng.Intn(4)]
@@ -141,10 +167,19 @@ func c20Sequence(c *evid.Ctx, seed int64, declared map[string]bool, allSites *re
 		ops = append(ops, tmpl+"="+op.String())
 		switch op.Kind {
 		case "reopen":
+			if gate != nil && gate.Holding() {
+				c.Count("closes_with_rotation_pending", 1)
+			}
 			drv.CloseWAL(w)
+			if gate != nil {
+				gate.Close()
+			}
 			if w, err = open(); err != nil {
 				c.Violation("C20:reopen", err.Error(), map[string]any{"ops": ops})
 				return
+			}
+			if gate != nil {
+				gate = sched.NewRotGate(w)
 			}
 		case "append":
 			tb := tailBase(disk)
@@ -152,7 +187,7 @@ func c20Sequence(c *evid.Ctx, seed int64, declared map[string]bool, allSites *re
 				t.resets++
 			}
 			err := w.StoreLogs(op.Logs)
-			hooks.WaitRotation(w, drv.Watchdog)
+			settle()
 			if err == nil && len(op.Logs) > 0 {
 				t.appends++
 				t.entries += uint64(len(op.Logs))
@@ -165,7 +200,7 @@ func c20Sequence(c *evid.Ctx, seed int64, declared map[string]bool, allSites *re
 			k := l.ClassifyDelete(op.Min, op.Max)
 			before := l.Clone()
 			err := w.DeleteRange(op.Min, op.Max)
-			hooks.WaitRotation(w, drv.Watchdog)
+			settle()
 			if err == nil && k != model.DelMiddle {
 				l.DeleteRange(op.Min, op.Max)
 				removed := uint64(before.Len() - l.Len())
@@ -221,6 +256,22 @@ func c20Sequence(c *evid.Ctx, seed int64, declared map[string]bool, allSites *re
 	}
 	c.Count("sequences", 1)
 	c.Count("operations", int64(nops))
+	if gate != nil {
+		if rng.Intn(2) == 0 && gate.Holding() {
+			// end on a Close that beats the queued rotation, and the Open that completes it
+			c.Count("closes_with_rotation_pending", 1)
+			drv.CloseWAL(w)
+			gate.Close()
+			gate = nil
+			if w, err = open(); err != nil {
+				c.Violation("C20:reopen", err.Error(), map[string]any{"ops": ops})
+				return
+			}
+		} else {
+			gate.Release()
+		}
+		hooks.WaitRotation(w, drv.Watchdog)
+	}
 	// quiescence: compare
 	want := map[string]uint64{
 		"log_appends": t.appends, "log_entries_written": t.entries, "log_entry_bytes_written": t.bytesW,
